@@ -257,6 +257,18 @@ def run(ctx):
                     chk.ob('A5', 'tested[%s:%s#%d]' % (f.name, cn, i), True, c.where(), f.name,
                            how='result of %s is tested before every dependent use' % render(c)[:60])
     chk.count('pointer_uses_checked', na.uses)
+    # function pointers taken from tables: a row with NULL pointers (the option table's terminator) must
+    # never be selected, whatever name the configuration file supplies
+    from rules.C08 import sentinel_rule
+    real_ob = chk.ob
+
+    def ob(rule, key, ok, *a, **k):
+        return real_ob('A5' if rule == 'T1' else rule, 'null-table-slot:' + key if rule == 'T1' else key, ok, *a, **k)
+    chk.ob = ob
+    try:
+        sentinel_rule(ctx, prog)
+    finally:
+        chk.ob = real_ob
 
 
 def side_condition(ctx, prog, f, o, row):
